@@ -7,24 +7,38 @@ tri_list in push order) after every call:
                   off it, far outside, and within 0 .. 1e-13 of the plane of a cavity face so that would-be tet volumes
                   straddle min_volume = 1e-15), random vertex numbering, random cell insertion order and node rotation,
                   ghost vertices, uniform / anisotropic / full metrics, ratio limits; form_split / form_swap /
-                  form_collapse / form_ball / form_insert / form_insert_tet -> [enlarge_*] -> visible -> verify ->
-                  manifold -> ratio -> change -> ledger -> [normdev] -> replace -> grid, chained on the same grid
+                  form_collapse / form_ball / form_insert / form_insert_tet -> [enlarge_face i / enlarge_seg i /
+                  visible_face i] -> [enlarge_*] -> visible -> verify -> manifold -> ratio -> change -> [normdev] -> ledger
+                  -> replace -> grid, chained on the same grid
   cavity2_boxes   the same pipelines on jittered Kuhn boxes of checks/meshgen.py (patches one / sides / split): enlarge
                   loops that really grow, the twelve (edge, node) swap candidates of a tet, vertex balls, insertion of an
-                  isolated vertex, and the `two-face boundary tet` scenario of the package lead
+                  isolated vertex, hand-made add_tet / add_tet_wo / add_tri cavities, the `two-face boundary tet` scenario
+                  (findings/cavity2_twoface_ledger), tri-only surfaces and planar twod grids (seg cavities)
   cavity2_bad     wrong states, dead cells, stale cavities after a replace, junk faces / segs (the `while (keep_growing)`
                   loops that never end are left by the harness's call budget and print `hang` on both sides), junk ops
-oracle (Python, on the C output only, exact rationals): after every successful replace on a grid that was conforming
-  every face is in two tets or one tet + one tri, the signed boundary chain (tets minus tris) is still zero, the tris
-  created carry face ids of tris that were removed, total volume is conserved exactly when no tri changed, and every new
-  tet has volume > min_volume when the cavity reached VISIBLE through a volume test (check_visible / enlarge_visible /
-  enlarge_combined from state unknown).  A `hang` outside the `bad` stream is a violation.
+oracle (Python, on the C output only, exact rationals).  Each cavity is announced by `note caller` (a sequence the
+  library itself runs between ref_cavity_create and ref_cavity_free: swap_tet_pass, collapse fall-back, split, ref_layer)
+  or `note free` (any other use of the API).  After every successful replace on a grid that was conforming, for a
+  `caller` cavity, or a `free` one whose last `ledger` printed the certificate: the signed boundary chain (tets minus
+  tris) is still zero and the tris created carry face ids of tris that were removed; for a `caller` cavity or one that
+  reached VISIBLE through a volume test and passed ref_cavity_manifold: every face is in two tets or one tet + one tri; total volume is conserved
+  exactly when no tri changed; every new tet has volume > min_volume when the cavity reached VISIBLE through a volume test
+  (check_visible / enlarge_visible / enlarge_combined from state unknown); a `caller` cavity accepted without the
+  certificate is reported.  A `hang` on a freshly formed cavity outside the `bad` stream is a violation.
 
 validate stream (harness h_cavity2 run -> refdrv cavity2 replay):
-  cavity2_run     real ref_cavity_pass / ref_collapse_pass / ref_adapt_pass on small boxes with metrics that provoke swaps
-                  and collapses; one record per `cavity_replace` begin / accept; oracle: local validity of the accept stars,
-                  positive volumes, face ids, and the two NO-TRACE statements (hash chain inside ref_cavity_pass,
-                  create/free pairs without an accept leave the grid hash unchanged).
+  cavity2_run     real ref_cavity_pass / ref_collapse_pass / ref_split_pass / ref_adapt_pass on boxes of 1..3 cells per
+                  direction, 1 / 6 / 12 face ids, jitter, uniform / anisotropic / rotated / varying rotated metrics through
+                  ref_node_metric_set; one record per `cavity_replace` begin / accept (cavity, complete stars of every node
+                  of a listed cell in adjacency order, coordinates + metric + log-metric bit patterns, the thresholds of
+                  ref_grid_adapt, structural grid hash).  The driver requires visible / both manifold verifications /
+                  certOk / segIdsOk / faceVisible on every new tet, runs Cavity.replace and, for the caller,
+                  collapseCavityPath resp. formEdgeSwap + checkVisible + swapTetTrial, and compares with the accept record.
+                  Python oracle on the C output: local validity of the accept stars (every face with a centre node in two
+                  tets or one tet + one tri: the stars of the centre nodes are complete), exact positive volumes, face ids,
+                  and NO-TRACE: (1) inside ref_cavity_pass the hash at every begin equals the hash after the previous accept /
+                  at pass start and the hash at pass end equals the hash after the last accept; (2) every ref_cavity_create /
+                  ref_cavity_free pair of ref_collapse.c / ref_split.c without an accept in between leaves the hash unchanged.
 """
 import math
 from fractions import Fraction
@@ -235,17 +249,16 @@ def tail(rng, enl='rand', probe=True):
 # ref_collapse_to_remove_node1, ref_split_pass, ref_layer.c): after `note caller` the oracle requires a conforming result of
 # every accepted replace; after `note free` (arbitrary use of the API, e.g. the tri-first form_insert on a grid with tets)
 # only when the certificate `certOk` held
-CALLER_ENL = {'split': [None, 'enlarge_combined', 'enlarge_combined', 'enlarge_visible'],
-              'collapse': [None, 'enlarge_visible', 'enlarge_visible'],
-              'swap': [None, None, 'enlarge_combined'],
-              'ball': [None, 'enlarge_visible', 'enlarge_combined'],
-              'insert_tet': [None, 'enlarge_combined', 'enlarge_visible']}
+CALLER_ENL = {'split': ['enlarge_combined'],          # ref_split_pass (try_cavity)
+              'collapse': ['enlarge_visible'],         # ref_collapse_to_remove_node1 (!allowed branch)
+              'swap': [None, None, 'enlarge_combined'],   # ref_cavity_swap_tet_pass; ref_layer.c
+              'insert_tet': ['enlarge_combined']}      # ref_layer.c
 
 
 def cav(rng, kind, form, caller=True, enl='pick', probe=True):
     """one cavity from form_* to replace; kind in split|collapse|swap|ball|insert|insert_tet"""
     if enl == 'pick':
-        if caller and kind in CALLER_ENL and rng.random() < 0.85:
+        if caller and kind in CALLER_ENL and rng.random() < 0.6:
             enl = rng.choice(CALLER_ENL[kind])
         else:
             enl = rng.choice([None] + ENL)
@@ -602,6 +615,7 @@ def oracle_fn(ops, impl):
     caller = False        # `note caller`: a sequence the library itself runs
     cert = False          # the last `ledger` said certOk and nothing touched the cavity since
     fresh = False         # the cavity was formed on the present grid and not replaced yet
+    mani = False          # ref_cavity_manifold said yes (no new cell repeats a cell that stays) and nothing changed since
     for i, (op, line) in enumerate(zip(ops, impl)):
         w = op.split()
         lw = line.split()
@@ -609,7 +623,7 @@ def oracle_fn(ops, impl):
             continue
         k = w[0]
         if k == 'reset':
-            verts, before, state, vol_checked, caller, cert, fresh = {}, None, 0, False, False, False, False
+            verts, before, state, vol_checked, caller, cert, fresh, mani = {}, None, 0, False, False, False, False, False
             bad_session = len(w) > 1 and w[1] == 'bad'
             continue
         if k == 'note':
@@ -620,8 +634,12 @@ def oracle_fn(ops, impl):
         if k == 'ledger':
             cert = lw[:3] == ['ok', '1', '1']
             continue
+        if k == 'manifold':
+            mani = lw == ['ok', '1']
+            continue
         if k in ('new', 'set_state', 'surf_node', 'form') or (k in ST_OPS and k not in ('visible', 'replace')):
             cert = False
+            mani = False
         if (k.startswith('form') or k == 'new') and line != 'bad-op':
             fresh = True
         elif (k.startswith('form_') and line == 'bad-op') or (k == 'replace' and line.startswith('ok ')):
@@ -645,7 +663,8 @@ def oracle_fn(ops, impl):
                 bt, bs = before[0], before[1]
                 if conforming(bt, bs) and before[4]:
                     # the certificate alone gives the signed statement; the unsigned cover also needs the volume test
-                    cover = unsigned_cover(tets, tris) if (before[5] or before[3]) else {}
+                    # (and, outside the library's own sequences, ref_cavity_manifold: the swap pass has ref_swap_manifold)
+                    cover = unsigned_cover(tets, tris) if (before[5] or (before[3] and before[6])) else {}
                     wrong = [f for f, c in cover.items() if not (c == [2, 0] or c == [1, 1])]
                     if wrong:
                         bad.append((i, 'after replace face %s is in %d tets and %d tris' %
@@ -673,7 +692,7 @@ def oracle_fn(ops, impl):
                                     break
                     except KeyError:
                         pass
-            before = [tets, tris, False, False, False, False]
+            before = [tets, tris, False, False, False, False, False]
         if k in ST_OPS and len(lw) == 2 and lw[0] in STATUS and lw[1].isdigit():
             new_state = int(lw[1])
             if k == 'replace':
@@ -682,6 +701,7 @@ def oracle_fn(ops, impl):
                     before[3] = vol_checked
                     before[4] = caller or cert
                     before[5] = caller
+                    before[6] = mani
                     if caller and lw[0] == 'ok' and ops[i - 1] == 'ledger' and not cert:
                         bad.append((i, 'library sequence accepted by ref_cavity_replace without the certificate '
                                        '(listed cells live, faces non-degenerate, ledger balanced): %s' % impl[i - 1]))
